@@ -733,8 +733,19 @@ def run_case(ctx):
         n = rng.choice([9, 9, 10, 10, 11, 11, 12])
         ops = []
         descs = []
-        for _ in range(rng.randint(1, 3) if n <= 10 else rng.randint(1, 2)):
+        for j_ in range(rng.randint(1, 3) if n <= 10 else rng.randint(1, 2)):
             g, d = GC.rand_gate(rng, nprng, 2, wrap=0.2, custom=0.1, allow_u3=False)
+            if j_ == 0 and ctx.index % 2 == 1 and g.num_qubits <= 2:
+                # a gate on three or four qubits up here as well, on a tuple that is not its own inverse as a permutation
+                # (a cyclic shift): whatever applies gates differently above ten qubits meets every arity
+                g, d = g.controlled(3 - g.num_qubits if rng.random() < 0.7 else 4 - g.num_qubits), "C." + d
+                base_ = sorted(rng.sample(range(n), g.num_qubits))
+                k_ = rng.randint(1, g.num_qubits - 1)
+                qs = tuple(base_[k_:] + base_[:k_])
+                ops.append(g(*qs))
+                descs.append(f"{d}@{','.join(map(str, qs))}")
+                ctx.mon.note("wide:gate-on-3-or-4-qubits-cyclic-tuple")
+                continue
             qs = GC.rand_qubits(rng, g.num_qubits, n)
             if rng.random() < 0.6:  # make sure the extreme positions occur
                 qs = list(qs)
